@@ -29,7 +29,7 @@ def depth_verdict(tmpls):
     d = 0
     for t in tmpls:
         for it in TEMPLATES[t]:
-            if it in ('S', 'B', 'M', 'L'):
+            if it in ('S', 'B', 'M', 'L', 'Q'):
                 d += 1
             elif it in ('E', 'W', 'X'):
                 d -= 1
@@ -259,7 +259,7 @@ BOUNDS = {
 
 
 def events_in(seq):
-    return sum(1 for t in seq for it in TEMPLATES[t] if it in 'SEWBX')
+    return sum(1 for t in seq for it in TEMPLATES[t] if it in 'SEWBXMLQ')
 
 
 def main(tier):
